@@ -15,6 +15,8 @@ import (
 func init() {
 	register("C32", checkC32)
 	addBreakers("C32",
+		Breaker{Name: "stream-parse-error-only-in-envelope", File: "internal/api/bulking/handler_stream_json.go",
+			Old: "\t\t\t\t\t\th.actions = append(h.actions, \"\")\n\t\t\t\t\t\th.channel <- BulkElement{parseError: err}\n", New: "", Expect: "DOM/stream-parse-error"},
 		Breaker{Name: "atomic-bulk-commits-despite-error", File: "internal/api/bulking/bulker.go",
 			Old: "if hasError && bulkOptions.Atomic {", New: "if hasError && bulkOptions.Atomic && !bulkOptions.ContinueOnFailure {", Expect: "PAIR/bulk-commit-only-without-error"},
 		Breaker{Name: "element-after-failure-still-processed", File: "internal/api/bulking/bulker.go",
@@ -54,6 +56,84 @@ func checkC32(c *core.Ctx) {
 	ruleBulkResultOrder(c)
 	ruleBulkErrorCodes(c)
 	ruleBulkFailureRecorded(c)
+	ruleStreamParseErrorFailsBulk(c)
+}
+
+// ruleStreamParseErrorFailsBulk: a streaming bulk handler feeds the bulker element by element from
+// a goroutine. Bulker.Run decides between Commit and Rollback of an atomic bulk from the results
+// of the elements it was handed, and of nothing else; so an element that cannot be parsed must
+// reach the bulker as a failing element. A reader that only stores the error for the response
+// envelope and stops leaves an atomic bulk to commit the elements that came before the malformed
+// one (and the response status is computed from those successful results: 200).
+func ruleStreamParseErrorFailsBulk(c *core.Ctx) {
+	pk := c.Prog().Pkg(pkgBulk)
+	if pk == nil {
+		return
+	}
+	info := pk.TypesInfo
+	n := 0
+	for _, d := range index(c).Decls {
+		if relPkg(d.Pkg.PkgPath) != pkgBulk || d.Decl.Body == nil || d.Obj.Name() != "GetChannels" || strings.HasSuffix(c.Prog().Rel(d.Decl.Pos()), "_test.go") {
+			continue
+		}
+		// the reader goroutine: a `go func(){…}` whose loop sends on a channel of BulkElement
+		ast.Inspect(d.Decl.Body, func(x ast.Node) bool {
+			gs, ok := x.(*ast.GoStmt)
+			if !ok {
+				return true
+			}
+			fl, ok := gs.Call.Fun.(*ast.FuncLit)
+			if !ok {
+				return true
+			}
+			isElementSend := func(n ast.Node) bool {
+				s, ok := n.(*ast.SendStmt)
+				if !ok {
+					return false
+				}
+				t := info.TypeOf(s.Value)
+				return t != nil && astx.RecvTypeName(t) == "BulkElement"
+			}
+			sends := false
+			ast.Inspect(fl.Body, func(y ast.Node) bool {
+				if isElementSend(y) {
+					sends = true
+				}
+				return true
+			})
+			if !sends {
+				return true
+			}
+			n++
+			key := declKey(d) + ":parse-error-is-a-failing-element"
+			// error branches of the reader that leave the goroutine
+			bad := ast.Node(nil)
+			ast.Inspect(fl.Body, func(y ast.Node) bool {
+				is, ok := y.(*ast.IfStmt)
+				if !ok || len(errorCondVars(info, is.Cond)) == 0 || !astx.Terminates(info, is.Body.List) {
+					return true
+				}
+				delivered := false
+				ast.Inspect(is.Body, func(z ast.Node) bool {
+					if isElementSend(z) {
+						delivered = true
+					}
+					return true
+				})
+				if !delivered {
+					bad = is
+				}
+				return true
+			})
+			if bad != nil {
+				c.Fail("DOM/stream-parse-error", key, pos(c, bad), "the stream reader stops at an element it cannot parse without handing the bulker a failing element: Bulker.Run sees only the elements before it, so an atomic bulk commits them (all-or-nothing is lost) and the response is 200 with the parse error in the envelope")
+			} else {
+				c.Pass("DOM/stream-parse-error", key, pos(c, fl), "a parse error is delivered to the bulker as a failing element")
+			}
+			return true
+		})
+	}
+	c.Floor("DOM/stream-parse-error", "streaming bulk readers", n, 2)
 }
 
 func ruleBulkRun(c *core.Ctx) {
